@@ -4,6 +4,7 @@ package bad
 import (
 	"errors"
 	"fmt"
+	"math"
 	"reflect"
 	"strings"
 )
@@ -142,4 +143,12 @@ func Swallow(err error) error {
 		return nil
 	}
 	return err
+}
+
+// Nearest rounds by adding one half first: wrong for the double just below 0.5.
+func Nearest(x float64) float64 {
+	if x < 0 {
+		return math.Ceil(x - 0.5)
+	}
+	return math.Floor(x + 0.5)
 }
